@@ -1,7 +1,8 @@
 (* Driver for the extracted C03/C12 models.  usage: c03_model <dense|sparse|uint> <casefile>
    Same line format as harness/c03_data.cpp, except that random choices are explicit:
      H r            -> O r sigma..            (resolved by the Python driver from the C++ output)
-     CS r k m sigma..   CB r k m nclasses sizes.. S..   CT r k bperm..   CR -> CI *)
+     CS r k m sigma..   CB r k m nclasses sizes.. S..   CT r k bperm..   CR -> CI
+   W r q bs n1 idx1.. idx2.. : view -> subset -> subset -> toDataset, executed with the view model *)
 open C03_model
 
 let rec nat_of_int n = if n <= 0 then O else S (nat_of_int (n - 1))
@@ -90,20 +91,23 @@ let () =
                let (x, y) = both2 (split_at_element (nat_of_int a.(2))) regs.(r) in
                regs.(r) <- x; regs.(q) <- y; dump_reg r x ^ dump_reg q y
              | "B" -> let r = a.(0) in
-               (match repartition_by_class O (nat_of_int a.(1)) { inputs = regs.(r).inp; labels = regs.(r).lab } with
+               (* the gather index is computed by the loop model (prefix sums + scatter pass, as in Dataset.h);
+                  C03_class_order_loop: it equals the stable class order the theorems speak about *)
+               (match repartition_by_class_loop O (nat_of_int a.(1)) { inputs = regs.(r).inp; labels = regs.(r).lab } with
                 | Some d -> regs.(r) <- { (regs.(r)) with inp = d.inputs; lab = d.labels }; dump_reg r regs.(r)
                 | None -> raise Reject)
              | "Y" -> let r = a.(0) and q = a.(1) in
-               (match binary_indices regs.(r).lab (nat_of_int a.(2)) (nat_of_int a.(3)) with
+               (match binary_sub_problem (nat_of_int a.(2)) (nat_of_int a.(3)) { inputs = regs.(r).inp; labels = regs.(r).lab } with
                 | None -> " EXC"
-                | Some ix ->
-                  let x = both (indexed_subset ix) regs.(r) in
-                  let one = a.(3) in
-                  regs.(q) <- { x with lab = transform (fun lb -> if int_of_nat lb = one then S O else O) x.lab };
-                  dump_reg q regs.(q))
+                | Some d -> regs.(q) <- { (regs.(r)) with inp = d.inputs; lab = d.labels }; dump_reg q regs.(q))
              | "E" -> let r = a.(0) in
-               (match element (nat_of_int a.(1)) regs.(r).inp, element (nat_of_int a.(1)) regs.(r).lab with
-                | Some i, Some lb -> Printf.sprintf " elem=%d:%d view=%d:%d" (int_of_nat i) (int_of_nat lb) (int_of_nat i) (int_of_nat lb)
+               (* element(i) by index; view[i] through the index triple built by the DataView constructor *)
+               let vw = view_of regs.(r).inp in
+               let ent = List.nth vw a.(1) in
+               (match element (nat_of_int a.(1)) regs.(r).inp, element (nat_of_int a.(1)) regs.(r).lab,
+                      view_get regs.(r).inp ent, view_get regs.(r).lab ent with
+                | Some i, Some lb, Some vi, Some vl ->
+                  Printf.sprintf " elem=%d:%d view=%d:%d" (int_of_nat i) (int_of_nat lb) (int_of_nat vi) (int_of_nat vl)
                 | _ -> raise Reject)
              | "J" -> let r = a.(0) in
                let d = regs.(r).inp and dl = regs.(r).lab in
@@ -128,6 +132,22 @@ let () =
              | "V" -> let r = a.(0) and q = a.(1) in
                let x = both (view_to_dataset O (rest 3) (nat_of_int a.(2))) regs.(r) in
                regs.(q) <- { x with shape = "()" }; dump_reg q regs.(q)
+             | "W" -> (* W r q bs n1 idx1.. idx2.. : toDataset(subset(subset(view(R[r]), idx1), idx2), bs), and index() of every entry *)
+               let r = a.(0) and q = a.(1) in
+               let n1 = a.(3) in
+               let (i1, i2) = split_at n1 (rest 4) in
+               let vw = view_of regs.(r).inp in
+               (match view_subset vw i1 with
+                | None -> raise Reject
+                | Some v1 ->
+                  match view_subset v1 i2 with
+                  | None -> raise Reject
+                  | Some v2 ->
+                    match to_dataset regs.(r).inp v2 (nat_of_int a.(2)), to_dataset regs.(r).lab v2 (nat_of_int a.(2)) with
+                    | Some di, Some dl ->
+                      regs.(q) <- { inp = di; lab = dl; shape = "()" };
+                      dump_reg q regs.(q) ^ " vidx=" ^ String.concat "," (List.map (fun e -> string_of_int (int_of_nat (vi_dataset_index e))) v2)
+                    | _ -> raise Reject)
              | "F" -> let r = a.(0) and f = a.(1) in
                regs.(r) <- { (regs.(r)) with inp = transform (fun i -> nat_of_int (int_of_nat i + f)) regs.(r).inp; shape = shape0 (* transform infers the shape from the data *) }; dump_reg r regs.(r)
              | "CS" -> let r = a.(0) in let k = nat_of_int a.(1) and m = nat_of_int a.(2) in
